@@ -324,6 +324,9 @@ def inline_new_helpers(dd, known, max_rounds=4):
                 # a direct call, or a trait method call that resolves to an impl written after the pinned tree (e.g. TryFrom / PartialEq
                 # of a new private type)
                 hkey = t.get('fn') if t.get('fn') in helpers else (t.get('resolved') if t.get('resolved') in helpers else None)
+                # the derivable std traits stay calls: `a == b` on a new private enum reads better as eq(a, b) than as its expansion
+                if hkey is not None and hkey not in (t.get('fn'),) and t.get('name') in ('eq', 'ne', 'fmt', 'clone', 'hash', 'partial_cmp', 'cmp', 'default'):
+                    hkey = None
                 if hkey is None:
                     continue
                 h = helpers[hkey]
